@@ -246,6 +246,10 @@ func main() {
 	replay := flag.String("replay", "", "replay file (json with ops)")
 	child := flag.String("child", "", "internal: run a child role")
 	flag.Parse()
+	// the process's local time zone is an input like any other: nothing whispertool prints or
+	// parses may depend on it, so the harness (and every child, the server included) runs in
+	// a zone that is not UTC and not a whole number of hours
+	time.Local = time.FixedZone("VRF", 9*3600+30*60)
 	if *child != "" {
 		runChild(*child, flag.Args())
 		return
